@@ -111,7 +111,10 @@ def to_wikitext(
                     parts.append(recurse(x))
         elif kind == NodeKind.PRE:
             parts.append("<pre>")
-            parts.append(recurse(node.children))
+            for x in node.children:
+                # Text inside <pre> is not interpreted: no bracket protection
+                # (the parser would keep the marker verbatim)
+                parts.append(x if isinstance(x, str) else recurse(x))
             parts.append("</pre>")
         elif kind == NodeKind.PREFORMATTED:
             parts.append(recurse(node.children))
